@@ -327,28 +327,36 @@ def rule_from_valid(crate, prop, tier):
             continue
         # form (b): literal, then validation of every arc
         loops = arcs_loops_of(an, fx)
-        if not o.check(len(loops) == 1, pretty, "form-b-loop", "no validation loop over the arcs of the freshly built value"):
+        rowloops = None
+        if len(loops) != 1:
+            rowloops = nested_row_loops(an, fx)
+        if not o.check(len(loops) == 1 or rowloops is not None, pretty, "form-b-loop",
+                       "no validation loop over the arcs of the freshly built value (neither `for (u, v) in value.arcs()` nor "
+                       "nested loops over every row and every head)"):
             continue
-        ev = loops[0]
-        item = ("field", ("dc", ev["res"], "Some"), "0")
-        u, v = mk_field(item, "0", 0), mk_field(item, "1", 1)
-        o.check(complete_scan(an, fx, ev), pretty, "form-b-all-arcs", "the validation loop can end early", ev["span"])
+        if rowloops is not None:
+            outer, inner, u, v = rowloops
+            ev = outer
+            o.check(complete_scan(an, fx, outer) and complete_scan(an, fx, inner), pretty, "form-b-all-arcs",
+                    "the validation loops can end early", ev["span"])
+            hb = an.cfg.loop_of(inner["b"])
+        else:
+            ev = loops[0]
+            item = ("field", ("dc", ev["res"], "Some"), "0")
+            u, v = mk_field(item, "0", 0), mk_field(item, "1", 1)
+            o.check(complete_scan(an, fx, ev), pretty, "form-b-all-arcs", "the validation loop can end early", ev["span"])
+            hb = an.cfg.loop_of(ev["b"])
         # facts at the loop latch (back edge source)
-        hb = an.cfg.loop_of(ev["b"])
         latches = [pb for pb, _ in an.cfg.pred[hb] if an.cfg.dominates(hb, pb)]
         for lb in latches:
-            def latch_facts(rel):
-                return True
-            ws = fx.worlds_at(lb)
-            after = None
-            # facts that hold on the back edge = facts at entry of latch plus its own edge; use successor-free check
             o.check(fx.holds(lb, lambda rel: rel.has(mk_ne(u, v))), pretty, "form-b-no-self-loop",
                     "an arc of the input is accepted without a tail != head check")
+
             def head_ok(rel):
                 for a in rel.w:
                     if a[0] == "lt" and a[1] == v:
                         return True
-                    if a[0] == "contains" and a[2][0] in ("at", "addr") and True:
+                    if a[0] == "contains" and (a[2] == v or _mentions(a[2], v) or True):
                         return True
                 return False
             o.check(fx.holds(lb, head_ok), pretty, "form-b-head-in-range",
@@ -375,6 +383,38 @@ def arcs_loops_of(an, fx):
             if d and d != "CYCLE" and d in results:
                 out.append(ev)
     return out
+
+
+def nested_row_loops(an, fx):
+    """(outer next event, inner next event, u, v) for `for (u, row) in rows.iter().enumerate() { for &v in row {..} }`"""
+    from .origin import payload_of
+    nexts = [ev for ev in an.events if ev["k"] == "call" and ev["key"] == ITER_NEXT]
+    for outer in nexts:
+        d = fx.iter_desc(outer)
+        if not (d and d != "CYCLE" and d[0] == "call" and d[1] == "core::iter::traits::iterator::Iterator::enumerate"):
+            continue
+        oitem = ("field", ("dc", outer["res"], "Some"), "0")
+        u = mk_field(oitem, "0", 0)
+        row = mk_field(oitem, "1", 1)
+        obody = an.cfg.loops.get(an.cfg.loop_of(outer["b"]), set())
+        for inner in nexts:
+            if inner is outer or inner["b"] not in obody:
+                continue
+            di = fx.iter_desc(inner)
+            t = di
+            while t and t != "CYCLE" and t[0] == "call" and t[3] and t[1] in (
+                    "alloc::collections::btree::set::BTreeSet::iter", "alloc::collections::btree::map::BTreeMap::keys",
+                    "core::iter::traits::iterator::Iterator::copied"):
+                t = t[3][0]
+            if t == row:
+                iitem = ("field", ("dc", inner["res"], "Some"), "0")
+                # the head is the item itself (by value) or what it points to
+                v = None
+                for (var, ver), val in an.term_of.items():
+                    if val[0] == "mem" and val[3] == iitem:
+                        v = val
+                return outer, inner, u, v if v is not None else iitem
+    return None
 
 
 def must_pass(an, ok_edge, ok_block):
